@@ -153,8 +153,8 @@ MMIORegion::MMIORegion(MemoryInterfaceUnit& miu, ICU& icu, Apbp& apbp_from_cpu, 
         impl->cells[0x26 + i * 0x10] = Cell::RefCell(timer[i].start_high);   // TIMERx_SCH
         impl->cells[0x28 + i * 0x10] = Cell::RefCell(timer[i].counter_low);  // TIMERx_CCL
         impl->cells[0x2A + i * 0x10] = Cell::RefCell(timer[i].counter_high); // TIMERx_CCH
-        impl->cells[0x2C + i * 0x10] = Cell();                               // TIMERx_SPWMCL
-        impl->cells[0x2E + i * 0x10] = Cell();                               // TIMERx_SPWMCH
+        // impl->cells[0x2C + i * 0x10]; // TIMERx_SPWMCL
+        // impl->cells[0x2E + i * 0x10]; // TIMERx_SPWMCH
     }
 
     // APBP
